@@ -59,6 +59,9 @@ def spelling_styles():
     return out
 
 
+SIGNED_ONLY = ("i8", "i32", "i64", "isize")
+
+
 def c11_decls(tier):
     out = []
     # (a) mix patterns of implicit / explicit discriminants
@@ -91,6 +94,10 @@ def c11_decls(tier):
                 d = EnumDecl(r, variants, tag={"family": "C11b-spelling", "style": [base, sep, suffix, upper, neg_space]})
                 assert d.in_domain, (r, [v.lit for v in variants])
                 out.append(d)
+    # negated zero is an (optionally negated) integer literal too
+    for r in SIGNED_ONLY:
+        for z in ("-0", "- 0", "-0x0", "-0_%s" % r, "-00"):
+            out.append(EnumDecl(r, [Variant("V0", lit=z), Variant("V1"), Variant("V2", lit="-2")], tag={"family": "C11b-neg-zero", "lit": z}))
     # (c) sizes with implicit discriminants
     sizes = [1, 2, 255, 256, 257] + ([65534] if tier == "thorough" else [])
     for r in ("u16", "i32", "usize"):
@@ -378,6 +385,19 @@ def c13_cases(tier):
             val = good_val.get(p, "\"x\"")
             both("matrix:%s(%s=v)" % (f, p), "%s%s(%s = %s)" % (pre, f, p, val), documented)
             both("matrix:%s(%s)" % (f, p), "%s%s(%s)" % (pre, f, p), False)   # documented parameters need a string value
+    # an unknown parameter next to valid ones (both orders); every documented parameter at once must be accepted
+    for f in F:
+        docp = [p for p in ("name", "vis", "mode", "struct_name") if p in catalogue.PARAMS[f]]
+        pre = "iter, " if f == "range" else ""
+        if docp:
+            allp = ", ".join("%s = %s" % (p, good_val[p]) for p in docp)
+            both("all-params:%s" % f, "%s%s(%s)" % (pre, f, allp), True)
+            both("valid+unknown:%s" % f, "%s%s(%s, bogus = \"x\")" % (pre, f, allp), False)
+            both("unknown+valid:%s" % f, "%s%s(bogus = \"x\", %s)" % (pre, f, allp), False)
+            both("valid+bare-unknown:%s" % f, "%s%s(%s, bogus)" % (pre, f, allp), False)
+        else:
+            both("unknown-on-plain:%s" % f, "%s(bogus = \"x\")" % f, False)
+            both("empty-parens:%s" % f, "%s()" % f, True)
     # duplicated feature / parameter
     for f in F:
         inner = "iter, range" if f == "range" else f
